@@ -155,6 +155,13 @@ template <int S> struct Runner {
         }
       }
     }
+    // the waypoints and both boundary states read back through the HINTED overloads with one caller-held hint that is carried along:
+    // start -> end (jumps over every interior segment) -> every second knot descending -> every third knot ascending -> end -> start.
+    // A hint is an accelerator only: each value must equal the un-hinted one bitwise (seeded change C01-m6: forward jumps past the next segment)
+    { int hint = 0; std::vector<int> visit = {0, N}; for (int i = N; i >= 0; i -= 2) visit.push_back(i); for (int i = 0; i <= N; i += 3) visit.push_back(i); visit.push_back(N); visit.push_back(0);
+      ++c.st.comparisons; bool okh = true;
+      for (size_t vi = 0; okh && vi < visit.size(); ++vi) { const int i = visit[vi]; for (int k = 0; okh && k <= ((i == 0 || i == N) ? S - 1 : 0); ++k) { const double t = cum[i]; auto hv = tr.evaluate(t, &hint, k), uv = tr.evaluate(t, k);
+        if (!bits_equal(hv.data(), uv.data(), D)) { fail("interp-hinted-readback", p, fmt("derivative %d at knot %d read with a carried hint (now %d) differs from the un-hinted value", k, i, hint)); okh = false; } } } }
   }
 
   // BoundaryConditions constructors route their arguments (2/4/6-argument forms)
